@@ -16,6 +16,9 @@ def run(rep, kf, tier, seed):
         rep.merge(r)
     import contracts.model_props as mp
     mp.discharge(rep, kf, "C15", tier, seed)
+    # the allOf walk itself: one reference member + one inline member + own properties (fixed shape, symbolic required lists)
+    import contracts.process_properties as cpp
+    engine_b.discharge(rep, kf, [cpp.composition_contract()], "C15", tier, seed)
     from props.common import run_bounded
     run_bounded(rep, kf, "C15", ["model_properties", "schema_order"], tier)
     rep.trusted.extend(["CPython semantics of the supported subset as encoded in pyvc.symexec",
